@@ -72,7 +72,7 @@ def run(ctx):
     cases = os.path.join(ctx.work, "cases.ndjson")
     ctx.tlc("ValuesGen", "ValuesGen.cfg", timeout=3000, constants=dict(OutFile=json.dumps(cases)))
     ncases = sum(1 for _ in open(cases))
-    outs, st = ctx.shards("c13-values", cases, os.path.join(ctx.work, "v.trace"), extra=["-every", str(4 + ctx.seed % 2) if q else "1"])
+    outs, st = ctx.shards("c13-values", cases, os.path.join(ctx.work, "v.trace"), extra=["-every", str(4 + ctx.seed % 2) if q else "1", "-window", "256" if q else "1000"])
     drift = sum(s.get("drift", 0) for s in st)
     drift_ex = [e for s in st for e in (s.get("drift_examples") or [])][:3]
     if drift:
